@@ -383,6 +383,18 @@ class DFreeScorer(WeightLengthScorer):
     def _score(self, weight, length):
         return dfree(weight, self.cf, self.qf, length, self.fl)
 
+    # The formula is not monotonic in term weight and field length (and can be
+    # negative), so its value at (max weight, min length) is not an upper
+    # bound on the scores; without a real bound, report none
+    def supports_block_quality(self):
+        return False
+
+    def max_quality(self):
+        return float("inf")
+
+    def block_quality(self, matcher):
+        return float("inf")
+
 
 # PL2 model
 
@@ -439,6 +451,18 @@ class PL2Scorer(WeightLengthScorer):
     def _score(self, weight, length):
         return pl2(weight, self.cf, self.qf, self.dc, length, self.avgfl,
                    self.c)
+
+    # The formula is not monotonic in term weight and field length (and can be
+    # negative), so its value at (max weight, min length) is not an upper
+    # bound on the scores; without a real bound, report none
+    def supports_block_quality(self):
+        return False
+
+    def max_quality(self):
+        return float("inf")
+
+    def block_quality(self, matcher):
+        return float("inf")
 
 
 # Simple models
